@@ -78,6 +78,17 @@ func pairTable() []string {
 			add("c " + op + " (" + k + ")")
 		}
 	}
+	// chains of one operator over literals of every kind, nested to the right, to the left and both
+	for _, op := range gensyn.InfixOps {
+		for _, l := range [][4]string{{"1", "2", "3", "4"}, {"0.1", "0.2", "0.3", "0.4"}, {"1.5", "2", "3", "4"}, {"1", "2", "3.5", "4"}, {"\"a\"", "\"b\"", "\"c\"", "\"d\""}, {"1", "\"b\"", "3", "4"},
+			{"1", "2", "[3]", "4"}, {"a", "2", "3", "4"}, {"1", "2", "3", "a"}, {"true", "false", "true", "false"}, {"nil", "2", "3", "4"}, {"0x10", "2", "3", "4"}, {"1e3", "2", "3", "4"}, {"-1", "2", "3", "4"}, {"1", "2", "-3", "4"}} {
+			add(l[0] + " " + op + " (" + l[1] + " " + op + " " + l[2] + ")")
+			add("(" + l[0] + " " + op + " " + l[1] + ") " + op + " " + l[2])
+			add(l[0] + " " + op + " (" + l[1] + " " + op + " (" + l[2] + " " + op + " " + l[3] + "))")
+			add("(" + l[0] + " " + op + " " + l[1] + ") " + op + " (" + l[2] + " " + op + " " + l[3] + ")")
+			add(l[0] + " " + op + " (" + l[1] + " " + op + " " + l[2] + ") " + op + " " + l[3])
+		}
+	}
 	for _, op := range gensyn.PrefixOps {
 		for _, k := range exprKids {
 			add(op + k)
@@ -204,9 +215,36 @@ func localise(t0 ast.Node, compact bool, kind string) string {
 		rel = "|lprec=" + precRel(in, in.Left)
 		if in.Right != nil {
 			rel += "|rprec=" + precRel(in, in.Right)
+			// what the right operand is made of: the recorded finding is about chains of INTEGER literals only
+			rel += "|rleaves=" + leafKinds(in.Right)
 		}
 	}
 	return fmt.Sprintf("%s|%s[%s]%s", k, describe(node), strings.Join(kids, ","), rel)
+}
+
+// leafKinds says what the leaves of an operator tree are: "int" (integer literals only), "float" (number literals, at
+// least one float), or "other".
+func leafKinds(n ast.Node) string {
+	kind := "int"
+	var walk func(n ast.Node)
+	walk = func(n ast.Node) {
+		switch v := n.(type) {
+		case *ast.InfixExpression:
+			walk(v.Left)
+			if v.Right != nil {
+				walk(v.Right)
+			}
+		case *ast.IntegerLiteral:
+		case *ast.FloatLiteral:
+			if kind == "int" {
+				kind = "float"
+			}
+		default:
+			kind = "other"
+		}
+	}
+	walk(n)
+	return kind
 }
 
 // edgeDesc describes the right edge (last=false → we want how the statement ends) or left edge of a statement.
